@@ -1,6 +1,8 @@
 import GB.Base.Proto
 import GB.C19.Model
 import GB.C19.Join
+import GB.C19.Query
+import GB.C07.Wire
 /-
   C19 driver.  Lines (hex `x…`; `m:` multimap = `xKEY:xV1,xV2` joined by `;` sorted by key):
 
@@ -85,9 +87,61 @@ def ctClass (cts : List Bytes) : String :=
       (if ct.length == mt.length then "must" else "must+tail")
     else "open"
 
+/-- `_metadata[verif-sentinel]` — the harness appends `&<QueryEscape(sentinel)>=1` to the raw query of `disp` requests -/
+def sentinelKey : Bytes := ascii "_metadata[verif-sentinel]"
+def dispRawQuery (raw : Bytes) : Bytes :=
+  raw ++ (if raw.isEmpty then [] else [38]) ++ escape sentinelKey ++ [61, 49]
+
+/-- does the raw query exercise the irregular paths of `url.ParseQuery`? (branch histogram only) -/
+def rawClass (raw : Bytes) : String :=
+  let segs := (splitB 38 raw).filter (fun s => !s.isEmpty)
+  if segs.length != (queryPairs raw).length then "rawskip"
+  else if raw.contains 37 || raw.contains 43 then "rawesc" else "rawplain"
+
+/-- the recorded `r.URL.Query()` must be the model's `url.ParseQuery` of the raw query that was sent -/
+def queryTie (raw : Bytes) (q : MD) : Option String :=
+  if sortMD q != sortMD (urlQuery raw) then some s!"DIFF model=q:{showMD (urlQuery raw)}" else none
+
+def parseLinePair (s : String) : Option (Bytes × Bytes) :=
+  match s.splitOn "=" with
+  | [k, v] => do let k ← parseHex k; let v ← parseHex v; pure (k, v)
+  | _ => none
+
+def parseLines (s : String) : Option (List (Bytes × Bytes)) :=
+  (dropPrefix? s "p:").bind fun b => if b.isEmpty then some [] else (b.splitOn ";").mapM parseLinePair
+
+/-- the header block exactly as `fake.RawConn.WriteRequest` puts it on the wire: a Host line, every given line as
+    `name: value CRLF` verbatim, a Content-Length line when there is a body, the blank line -/
+def wireBlock (lines : List (Bytes × Bytes)) (post : Bool) (extra : List (Bytes × Bytes) := []) : Bytes :=
+  ascii "Host: verif.test\r\n" ++
+  (extra ++ lines).flatMap (fun l => l.1 ++ [58, 32] ++ l.2 ++ [13, 10]) ++
+  (if post then ascii "Content-Length: 5\r\n" else []) ++ [13, 10]
+
+/-- the recorded `r.Header` must be what the model of net/textproto + net/http's server makes of the bytes sent -/
+def headerTie (block : Bytes) (seen : MD) : Option String :=
+  match GB.C07.serverHeader block with
+  | none => some "DIFF model=rejected (net/http answers 400 to this header block)"
+  | some h => if sortMD seen != sortMD h then some s!"DIFF model=seen:{showMD h}" else none
+
+def targetSafe (raw : Bytes) : Bool := raw.all (fun c => c > 32 && c != 127)
+
 def handle : Handler
-  | ["disp", _m, _rq, _lines], outs =>
-    if outs.head? == some "rejected" then "OK b=disp-rejected-by-net/http" else
+  | ["disp", meth, rqIn, linesS], outs =>
+    let block := (parseLines linesS).map (fun ls => wireBlock ls (meth == "POST"))
+    if outs.head? == some "rejected" then
+      (match block, parseHex rqIn with
+       | some b, some raw =>
+         if (GB.C07.serverHeader b).isSome && targetSafe raw then "DIFF model=accepted (the wire model lets this header block through)"
+         else "OK nt b=disp-rejected-by-net/http"
+       | _, _ => "BAD disp lines") else
+    let htie := match block, (field outs "seen").bind parseM with
+      | some b, some seen => headerTie b seen
+      | _, _ => some "BAD disp lines"
+    if let some d := htie then d else
+    let qtie := match parseHex rqIn, (field outs "q").bind parseM with
+      | some raw, some q => queryTie (dispRawQuery raw) q
+      | _, _ => some "BAD disp raw query"
+    if let some d := qtie then d else
     match field outs "seen", field outs "q", field outs "h", field outs "st", field outs "sp", field outs "rq" with
     | some seenS, some qS, some h, some st, some sp, some rq =>
       match parseM seenS, parseM qS with
@@ -138,8 +192,12 @@ def handle : Handler
          else s!"VIOL isGRPCWebContentType={out}, the media type says {if m then 1 else 0}")
       else s!"OK nt b=ctype-{cls}-{if ct.any (fun b => b ≥ 128) then "nonascii" else "ascii"}"
     | none => "BAD ctype line"
-  | ["wsmd", via, _rq, _lines], outs =>
+  | ["wsmd", via, rqIn, _lines], outs =>
     if outs.head? == some "rejected" then "OK b=wsmd-rejected-by-net/http" else
+    let qtie := match parseHex rqIn, (field outs "q").bind parseM with
+      | some raw, some q => queryTie raw q
+      | _, _ => some "BAD wsmd raw query"
+    if let some d := qtie then d else
     match field outs "seen", field outs "q", field outs "st", field outs "md" with
     | some seenS, some qS, some st, some mdS =>
       match parseM seenS, parseM qS with
@@ -163,15 +221,16 @@ def handle : Handler
           else s!"OK{if qmd.isEmpty then "" else " nt"} b=wsmd-{via}-{if qmd.isEmpty then "noquerymd" else if hdrCollide then "collides-with-header" else "disjoint"}"
       | _, _ => "BAD wsmd md"
     | _, _, _, _ => "BAD wsmd fields"
-  | ["mdq", ph, _rq], outs =>
-    match parseHex ph, field outs "q", field outs "md", field outs "q2", field outs "mod" with
-    | some param, some qS, some mdS, some q2S, some mod =>
+  | ["mdq", ph, rqIn], outs =>
+    match parseHex rqIn, parseHex ph, field outs "q", field outs "md", field outs "q2", field outs "mod" with
+    | some raw, some param, some qS, some mdS, some q2S, some mod =>
       match parseM qS, parseM mdS, parseM q2S with
       | some q, some md, some q2 =>
         let r := parseMetadataQuery param q
         let mmod := if r.modified then "1" else "0"
         if canonMD md != canonMD r.md then s!"VIOL metadata is not the valid _metadata[k]=v entries model={showMD r.md}"
         else if sortMD q2 != sortMD r.query then s!"VIOL remaining parameters are not the non-metadata entries model={showMD r.query}"
+        else if let some d := queryTie raw q then d
         else if mod != mmod then s!"DIFF model=mod:{mmod}"
         else
           -- order of values under one key is map-order dependent only when two query keys collide
@@ -179,9 +238,9 @@ def handle : Handler
           let ks := (q.filter (fun e => isMetaKey p e.1)).map (fun e => lower (mdKeyOf p e.1))
           let collide := ks.any (fun k => (ks.filter (· == k)).length > 1)
           if !collide && sortMD md != sortMD r.md then s!"DIFF model={showMD r.md}"
-          else s!"OK{if r.modified then " nt" else ""} b=mdq-{if r.md.isEmpty then "nomd" else "md"}-{if collide then "collide" else "plain"}"
+          else s!"OK{if r.modified then " nt" else ""} b=mdq-{if r.md.isEmpty then "nomd" else "md"}-{if collide then "collide" else "plain"}-{rawClass raw}"
       | _, _, _ => "BAD mdq md"
-    | _, _, _, _, _ => "BAD mdq fields"
+    | _, _, _, _, _, _ => "BAD mdq fields"
   | _, _ => "BAD c19 line"
 
 end GB.C19
